@@ -39,6 +39,7 @@ def classify_exception(e: BaseException) -> Dict[str, Any]:
         "msg": str(e)[:300],
         "inner": [inner[0].replace(env.REPO + "/", ""), inner[1], inner[2]],
         "pams_frame": None if where is None else [where[0].replace(env.REPO + "/", ""), where[1]],
+        "pams_stack": [[f[0].replace(env.REPO + "/", ""), f[1]] for f in pams_frames][-8:],
         "in_harness": in_harness,
         "tb": "".join(traceback.format_exception(type(e), e, e.__traceback__, limit=-8))[-1500:],
     }
